@@ -243,6 +243,17 @@ pub fn gen_c12(rng: &mut Rng, _thorough: bool) -> LspTrace {
     }
     // recovery probe: after the last fault event a valid document on a fresh URI is still served
     events.push(Event::Open { uri: "ws:probe.st".into(), version: 1, text: pool::class_text("valid", 7) });
+    // shutdown must be able to follow any kind of message, not only the probe
+    if rng.chance(1, 2) {
+        for _ in 0..rng.range(1, 2) {
+            let e = match rng.below(4) {
+                0 => Event::SemTok { uri: rng.pick(&uris).to_string(), id_kind: 0 },
+                1 => Event::UnknownNotification { method: rng.pick(UNKNOWN_NOTIFICATIONS).to_string(), uri: rng.pick(&uris).to_string(), refers_to: None },
+                _ => gen_edit_event(rng, &texts, &uris, &mut counter, en_multi),
+            };
+            events.push(e);
+        }
+    }
     let use_ws_folder = rng.chance(1, 4);
     let ws_files = if use_ws_folder { gen_ws_files(rng, &texts) } else { vec![] };
     LspTrace { prop: "C12".into(), ws_files, use_ws_folder, events, hash_seeds: vec![rng.next()], dir_seed: rng.next(), mode: "random".into() }
@@ -575,6 +586,8 @@ fn oracle_c12(t: &LspTrace, h: &History, stats: &mut Stats) -> Vec<Violation> {
                 format!("C12/server-died/{kind}/{}", panic_signature(why)),
                 format!("server terminated while processing step {:?} ({}): {why}", inc.died_at_step, at.map(|s| short(&s.sent)).unwrap_or_default()),
             ));
+        } else if inc.still_receiving_after_exit {
+            out.push(viol("C12", "C12/not-terminated-after-exit".into(), format!("after shutdown and exit the server was waiting for further messages instead of terminating (result after the connection was cut: {:?})", inc.result)));
         } else if !inc.crashed_by_simulator {
             match &inc.result {
                 Some(Ok(())) => stats.count("c12.clean_exits"),
@@ -585,8 +598,8 @@ fn oracle_c12(t: &LspTrace, h: &History, stats: &mut Stats) -> Vec<Violation> {
     // recovery probe: the last event (a didOpen of a valid document on a fresh URI) is served
     if let Some(last_inc) = h.incarnations.last() {
         if last_inc.died.is_none() {
-            let probe_index = t.events.len() - 1;
-            if let Some(step) = last_inc.steps.iter().find(|s| s.event == Some(probe_index) && s.label == "didOpen") {
+            let probe_index = t.events.iter().rposition(|e| matches!(e, Event::Open { uri, .. } if uri == "ws:probe.st"));
+            if let Some(step) = last_inc.steps.iter().find(|s| probe_index.is_some() && s.event == probe_index && s.label == "didOpen") {
                 let probe_uri = expand_uri("ws:probe.st");
                 let pubs: Vec<&Value> = publish_of(step).into_iter().filter(|p| p["params"]["uri"].as_str() == Some(&probe_uri)).collect();
                 let ok = pubs.len() == 1;
@@ -1238,9 +1251,8 @@ pub fn execute(t: &LspTrace, stats: &mut Stats) -> RunReport {
 pub fn shrink(t: &LspTrace) -> Vec<LspTrace> {
     let mut out = vec![];
     let n = t.events.len();
-    // the C12 recovery probe (last event) stays
-    let keep_last = t.prop == "C12";
-    let limit = if keep_last { n.saturating_sub(1) } else { n };
+    // (the C12 recovery probe may be dropped by shrinking: the probe clause then simply does not apply)
+    let limit = n;
     // 1. drop chunks of events, then single events
     let mut chunk = limit / 2;
     while chunk >= 2 {
